@@ -252,7 +252,7 @@ class Batch:
         if pr.returncode != 0:
             raise RuntimeError("the reference toolchain rejects a generated tree (generator bug): %s\n%s" % (self.mod, pr.stderr[-2000:]))
         for r in self.recs:
-            _, rerr, _ = run_prog(os.path.join(out, r["short"]))
+            _, rerr, _ = run_prog(os.path.join(out, r["short"]), timeout=300)
             r["ref"] = trace_of(rerr)
 
     def build(self, env, opt, genll=False):
@@ -274,7 +274,7 @@ class Batch:
                 r["build_rc"], r["build_err"] = p1.returncode, (p1.stdout + p1.stderr)[-1500:]
         for r in self.recs:
             if r["build_rc"] == 0:
-                _, err, rc = run_prog(r["prog"])
+                _, err, rc = run_prog(r["prog"], timeout=300)
                 r["real"], r["rc"] = trace_of(err), rc
 
 
@@ -291,7 +291,7 @@ def run(ctx, args):
     notes = []
 
     # ------------------------------------------------------------------ trees
-    n_facts, n_o0, n_o2, n_arch = (3, 5, 2, 1) if quick else (8, 40, 10, 4)
+    n_facts, n_o0, n_o2, n_arch = (3, 5, 2, 1) if quick else (6, 24, 6, 2)
     if os.environ.get("VERIF_C12_SMALL"):      # debugging aid (mutation experiments on a loaded machine): not a tier
         n_facts, n_o0, n_o2, n_arch = 1, 2, 0, 0
     bf, be, bo = Batch(ctx, work, "c12f", "facts"), Batch(ctx, work, "c12e", "O0"), Batch(ctx, work, "c12o", "O2")
@@ -437,7 +437,7 @@ def run(ctx, args):
                       ["-Wl,--end-group", "-lpthread", "-lm", "-ldl"], out, env)
             rec["link_rc"], rec["link_err"] = pl.returncode, (pl.stdout + pl.stderr)[-1500:]
             if pl.returncode == 0:
-                _, err, rc = run_prog(os.path.join(out, "host"))
+                _, err, rc = run_prog(os.path.join(out, "host"), timeout=300)
                 rec["real"], rec["rc"] = trace_of(err), rc
         ctx.log("c-archive %s: build rc %s, link rc %s" % (ba.mod, rec.get("build_rc"), rec.get("link_rc")))
     results = be.recs + bf.recs + bo.recs + [ba.recs[0] for ba in archs]
@@ -562,7 +562,7 @@ def run(ctx, args):
         "and (E) differential runs of %d llgo-compiled generated trees against modeld_c12" % (len(facts), n_std_facts, len(entries), n_eval),
         "the order INSIDE a package body (variables, init#k) is go/types + go/ssa's (not llgo code): taken from the reference toolchain's trace of the same module (oracle), cross-checked against the generator's own reading of the Go spec",
         "harness/c12/irfacts.py: syntactic classification of IR instructions into tokens (runs of other instructions collapsed into one `act`); harness/c12/treegen.py: generator, go/types import order (first occurrence, files by name)",
-        "c-archive: llgo's libX.a is an archive of per-package archives; the check unpacks it (ar x) and links the members as a group with a gcc-compiled host",
+        "c-archive: llgo's libX.a is an archive of per-package archives; the check unpacks it (ar x) and links the members as a group with a clang-compiled C host",
     ]
     ctx.assumptions += ["the topological numbering exists because the Go tool chain rejects import cycles",
                         "patched std packages other than sync/atomic do not link in the sandbox (Go runtime dependencies): their chain is covered by the model + the sync/atomic IR facts only" + ("" if quick else " (+ thorough-tier IR facts)")]
